@@ -47,6 +47,19 @@ pub open spec fn close_idx<'a>(s: Seq<DeEvent<'a>>, name: Seq<u8>, d: nat) -> Op
     else if is_end_of(s[0], name) { if d == 0 { Some(0int) } else { shift(close_idx(s.subrange(1, s.len() as int), name, (d - 1) as nat), 1) } }
     else { shift(close_idx(s.subrange(1, s.len() as int), name, d), 1) }
 }
+/// how far `skip` goes in the pending events `p`: one event, or -- for a Start event -- its whole element
+pub open spec fn skip_extent<'a>(p: Seq<DeEvent<'a>>, n: int) -> bool {
+    1 <= n <= p.len() && match p[0] {
+        DeEvent::Start(s) => {
+            let name = s.buf@.subrange(0, s.name_len as int);
+            let tail = p.subrange(1, p.len() as int);
+            // no Eof is skipped over, and the skip ends at the matching End or at the Eof
+            &&& forall|j: int| 1 <= j < n - 1 ==> !(#[trigger] p[j] is Eof)
+            &&& (p[n - 1] is Eof && n >= 2) || close_idx(tail, name, 0) == Some(n - 2)
+        },
+        _ => n == 1,
+    }
+}
 /// closing e+1+d levels = closing e+1 levels... stated for one level: first the element at depth e, then d more
 pub proof fn lemma_close_split<'a>(s: Seq<DeEvent<'a>>, name: Seq<u8>, e: nat, d: nat)
     ensures close_idx(s, name, e + 1 + d) == (match close_idx(s, name, e) {
@@ -319,29 +332,53 @@ where
             // nothing is lost, duplicated or re-ordered
             r is Ok ==> exists|n: int| 1 <= n <= old(self).pending().len()
                 && final(self).pending() == old(self).pending().subrange(n, old(self).pending().len() as int)
-                && #[trigger] final(self).held() == old(self).held() + old(self).pending().subrange(0, n),
+                && #[trigger] final(self).held() == old(self).held() + old(self).pending().subrange(0, n)
+                // ... exactly one: a Start event takes its whole element with it, up to and including the End that
+                // closes it (nested elements of the same name counted), or everything up to Eof if it is never closed
+                && skip_extent(old(self).pending(), n),
+            // C20: the buffer never grows beyond the configured limit -- every event held went through the limit check
+            r is Ok ==> (old(self).limit matches Some(max) ==> final(self).held().len() <= max.get()),
     {
         let ghost p0 = self.pending();
         let ghost h0 = self.held();
         let ghost mut n: int = 1;
+        proof { axiom_seq_eq_u8(); }
         let event = self.next()?;
         self.skip_event(event)?;
         proof {
             assert(self.pending() =~= p0.subrange(1, p0.len() as int));
             assert(self.held() =~= h0 + p0.subrange(0, 1));
         }
+        let ghost tail = p0.subrange(1, p0.len() as int);
         match self.write.back() {
             // Skip all subtree, if we skip a start event
             Some(DeEvent::Start(e)) => {
                 let end = e.name().as_ref().to_owned();
+                let ghost nm = end@;
+                proof {
+                    assert(tail.subrange(0, tail.len() as int) =~= tail);
+                    assert(p0[0] == DeEvent::Start(*e));
+                    assert(nm =~= e.buf@.subrange(0, e.name_len as int));
+                }
                 let mut depth = 0;
                 loop
                     invariant
                         1 <= n <= p0.len(), self.limit == old(self).limit, depth >= 0, self.qwf(),
                         self.pending() == p0.subrange(n, p0.len() as int),
                         self.held() == h0 + p0.subrange(0, n),
+                        self.limit matches Some(max) ==> self.held().len() <= max.get(),
+                        is_start_of(p0[0], nm),
+                        forall|j: int| 1 <= j < n ==> !(#[trigger] p0[j] is Eof),
+                        close_idx(tail, nm, 0) == shift(close_idx(tail.subrange(n - 1, tail.len() as int), nm, depth as nat), n - 1),
                     decreases self.pending().len()
                 {
+                    let ghost cur = tail.subrange(n - 1, tail.len() as int);
+                    proof {
+                        if n < p0.len() {
+                            assert(cur[0] == p0[n]);
+                            assert(cur.subrange(1, cur.len() as int) =~= tail.subrange(n, tail.len() as int));
+                        }
+                    }
                     // A-depth (stated assumption): fewer than 2^31 - 1 nested same-name elements
                     assume(depth < 0x7fff_ffff);
                     let event = self.next()?;
@@ -349,6 +386,7 @@ where
                         DeEvent::Start(ref e) if e.name().as_ref() == end => {
                             self.skip_event(event)?;
                             proof {
+                                assert(is_start_of(cur[0], nm));
                                 assert(self.pending() =~= p0.subrange(n + 1, p0.len() as int));
                                 assert(self.held() =~= h0 + p0.subrange(0, n + 1));
                                 n = n + 1;
@@ -358,6 +396,7 @@ where
                         DeEvent::End(ref e) if e.name().as_ref() == end => {
                             self.skip_event(event)?;
                             proof {
+                                assert(is_end_of(cur[0], nm) && !is_start_of(cur[0], nm));
                                 assert(self.pending() =~= p0.subrange(n + 1, p0.len() as int));
                                 assert(self.held() =~= h0 + p0.subrange(0, n + 1));
                                 n = n + 1;
@@ -377,6 +416,7 @@ where
                             break;
                         }
                         _ => { self.skip_event(event)?; proof {
+                                assert(!is_start_of(cur[0], nm) && !is_end_of(cur[0], nm) && !(cur[0] is Eof));
                                 assert(self.pending() =~= p0.subrange(n + 1, p0.len() as int));
                                 assert(self.held() =~= h0 + p0.subrange(0, n + 1));
                                 n = n + 1;
@@ -386,6 +426,7 @@ where
             }
             _ => (),
         }
+        proof { assert(skip_extent(p0, n)); }
         Ok(())
     }
 //@end
